@@ -1,5 +1,8 @@
 """C02 - negative-mode data really violates the schema and is labelled so.
 
+Review round 2 (enumerators in mc/c02_extra.py): entry points / where the modes are configured, real engine runs (skip decision as
+the user sees it), three locations and both writing orders, accept-all schemas beyond ``{}``, ``required`` left out, two media types.
+
 E2 enumerates small one-operation documents (one input, or an un-negatable input next to a negatable one); E1 enumerates
 every choice path (deviation-bounded) of the real ``operation.as_strategy(generation_mode=NEGATIVE)``; every produced
 Case is judged by the independent evaluator (labels vs. content).  Operation-level claims (negatable => gets a case,
@@ -12,6 +15,7 @@ import copy
 from urllib.parse import unquote, unquote_plus
 from typing import Any
 
+from mc import c02_extra as round2
 from mc import smallscope as ss
 from mc.choicetree import Alphabet, Stats, explore
 from mc.runner import Result, digest
@@ -26,15 +30,24 @@ RULE = (
     "negative strategy with <=d non-default PRNG/mutation answers over a bounded alphabet is executed (main pass); when the main "
     "pass yields no case, the whole tree over the minimal alphabet is executed (liveness pass); a case is non-trivial when a "
     "component labelled negative is present and was judged (violates/conforms) by the evaluator; distinct = distinct "
-    "(document, modes, generated case) triples"
+    "(document, modes, generated case) triples; review round 2 adds (mc/c02_extra.py): the same operations through the other entry "
+    "points (configuration stored on the schema only / passed per call only, schema.as_strategy, schema[path].as_strategy), one "
+    "deterministic run of the real engine per document x modes (skipped / error / tested, recorded cases judged), inputs in two "
+    "and three locations in both writing orders, accept-all schemas other than {} (neutral keywords, annotations only, "
+    "combinators with an accept-all branch), enumerations with null, `required` left out, two media types"
 )
 BOUNDS = {
-    "quick": {"d": 2, "max_exec_per_tree": 2500, "d_mixed_mode_recheck": 1, "liveness_max_exec": 2600, "chars": ["a", "0"]},
+    "quick": {"d": 2, "max_exec_per_tree": 2500, "d_mixed_mode_recheck": 1, "liveness_max_exec": 2600, "chars": ["a", "0"],
+              "review2_d": 1, "engine_runs": {"phases": ["fuzzing"], "max_examples": 3, "derandomize": True, "workers": 1}},
     "thorough": {"d": 3, "max_exec_per_tree": 12000, "d_mixed_mode_recheck": 2, "liveness_max_exec": 120000,
-                 "chars": ["a", "b", "0", "1", "\x00", "é", " "], "k2_grammar_d": 2},
+                 "chars": ["a", "b", "0", "1", "\x00", "é", " "], "k2_grammar_d": 2, "review2_d": 2,
+                 "engine_runs": {"phases": ["fuzzing"], "max_examples": 3, "derandomize": True, "workers": 1}},
 }
 # Measured (quick, unchanged tree): 281 documents, 100 841 executions, ~600 k tree nodes, all d<=2 trees completed (largest 1 222
 # executions), 41 liveness trees exhausted (largest 2 048); ~5-7 ms CPU per execution => ~700 CPU-seconds.
+# Review round 2 (quick, unchanged tree): 426 documents (+121: 24 entry-point, 21 engine, 20 multi-input, 42 accept-all/enum/const,
+# 14 writing-variant), 104 429 executions (+5 %), 24 engine runs (0.1-0.3 s each, ~3 s for the four that end in Unsatisfiable);
+# the added items cost ~30 CPU-seconds together.
 BUDGET_S = {"quick": 150, "thorough": 3000}
 CHUNK = 1
 ENGINES = ["E2", "E1"]
@@ -60,6 +73,11 @@ ASSUMPTIONS = [
     "wire model of the query: a list value is sent as repeated name=item pairs (a one-item list is that item, an empty list is an "
     "omitted parameter; measured on requests' PreparedRequest), longer lists and dict values are left undecided for non-array schemas",
     "evaluator verdict None (1.0 vs integer, formats, unsupported keywords) is never reported",
+    "engine items: one derandomised run of the fuzzing phase (max_examples=3, one worker, in-process HTTP answering 200) per document "
+    "and modes is ONE deterministic execution, not a search: 'skipped' / 'error' are read from ScenarioFinished.status and "
+    "NonFatalError, 'gets negative cases' from the cases in its recorder; only documents with a trivially satisfiable negation are used "
+    "for the 'gets cases' direction",
+    "a body declared with several media types is judged against the schema of case.media_type (undecided when that is not one of them)",
     "'can be violated' is decided by brute force over mc.smallscope.candidate_values(); operations that are neither clearly negatable "
     "(some value violates) nor clearly un-negatable (everything conforms and nothing can be omitted) get no liveness verdict",
 ]
@@ -226,6 +244,11 @@ def items(tier: str, seed: int) -> list[dict]:
             mixes = mixes[:-1] if full else (mixes[:2] if spec == "2.0" else [mixes[1], mixes[4]])
         for params, body, modes in mixes:
             out.append(_item(spec, params, body, "mixed", tier, shape="mixed", modes=modes if quick else [N, PN]))
+    # review round 2: other entry points, engine runs, three locations / writing orders, accept-all shapes, writing variants
+    for e in round2.all_items(tier):
+        more = {k: v for k, v in e.items() if k not in ("spec", "params", "body", "family", "shape", "modes", "d")}
+        out.append({"spec": e["spec"], "params": e["params"], "body": e["body"], "family": e["family"], "modes": e["modes"],
+                    "ref": 0, "shape": e["shape"], "d": e["d"], **more})
     return out
 
 
@@ -243,10 +266,41 @@ def build(item: dict) -> tuple[dict, dict]:
     method = "post" if body is not None else "get"
     doc_body = None
     if body is not None:
-        doc_body = {"required": body["required"], "content": {"application/json": {"schema": body["schema"]}}}
-    doc = ss.make_document(spec, path=path, method=method, parameters=copy.deepcopy(params), body=doc_body,
+        content = body["content"] if "content" in body else [["application/json", body["schema"]]]
+        doc_body = {"required": body["required"], "content": {mt: {"schema": copy.deepcopy(sch)} for mt, sch in content}}
+    doc_params = copy.deepcopy(params)
+    if item.get("omit_required"):
+        # `required: false` left out instead of written (the default of the keyword)
+        for p in doc_params:
+            if p["required"] is False:
+                del p["required"]
+        if doc_body is not None and doc_body["required"] is False:
+            del doc_body["required"]
+    doc = ss.make_document(spec, path=path, method=method, parameters=doc_params, body=doc_body,
                            components=copy.deepcopy(components))
+    if item.get("omit_required") and spec == "2.0":
+        for p in doc["paths"][path][method]["parameters"]:
+            if p["in"] == "body" and p.get("required") is False:
+                del p["required"]
     return doc, {"params": params, "body": body, "path": path, "method": method}
+
+
+def body_schemas(body: dict) -> list[tuple[str, Any]]:
+    """(media type, schema) pairs of a declared body, in writing order."""
+    if "content" in body:
+        return [(mt, sch) for mt, sch in body["content"]]
+    return [("application/json", body["schema"])]
+
+
+def body_schema_for(body: dict, media_type: Any) -> tuple[bool, Any]:
+    """(known, schema) of the body for the media type a case was generated for."""
+    pairs = body_schemas(body)
+    if len(pairs) == 1:
+        return True, pairs[0][1]
+    for mt, sch in pairs:
+        if isinstance(media_type, str) and mt.lower() == media_type.lower():
+            return True, sch
+    return False, None
 
 
 # -- oracle ------------------------------------------------------------------------------------------------------------
@@ -364,6 +418,12 @@ def _why_conforms(raw: bool | None, value: Any) -> str:
     return "conforms_as_generated"
 
 
+NEUTRAL_VALUES: dict[str, list] = {"minItems": [0], "minProperties": [0], "minLength": [0], "uniqueItems": [False], "required": [[]],
+                                   "properties": [{}], "items": [{}], "additionalProperties": [True, {}], "nullable": [True],
+                                   "x-nullable": [True]}
+ANNOTATION_KEYWORDS = {"description", "title", "default", "example", "examples", "deprecated", "externalDocs"}
+
+
 def classify_operation(doc: dict, expect: dict, spec: str) -> tuple[str, dict]:
     """'must_produce' (some input has a violating value), 'must_skip' (every input accepts everything and nothing can be
     omitted) or 'undecided'.  Brute force over the evaluator's candidate values; no schemathesis code involved."""
@@ -381,6 +441,13 @@ def classify_operation(doc: dict, expect: dict, spec: str) -> tuple[str, dict]:
             return "string_minLength%s" % schema["minLength"]
         if isinstance(schema, dict) and set(schema) == {"additionalProperties"}:
             return "additionalProperties_only"
+        if isinstance(schema, dict) and set(schema) == {"const"}:
+            return "const_only"
+        if isinstance(schema, dict) and schema and set(schema) <= ANNOTATION_KEYWORDS:
+            return "annotations_only"  # no validation keyword at all
+        if isinstance(schema, dict) and schema and all(k in NEUTRAL_VALUES and any(v == n and type(v) is type(n) for n in NEUTRAL_VALUES[k])
+                                                       for k, v in schema.items()):
+            return "neutral_keywords_only"  # validation keywords, each written with the value that allows everything
         return "other"
 
     for p in expect["params"]:
@@ -404,11 +471,12 @@ def classify_operation(doc: dict, expect: dict, spec: str) -> tuple[str, dict]:
         if p["required"] and loc != "path":
             omittable = True
     if expect["body"] is not None:
-        verdicts = [verdict(doc, expect["body"]["schema"], cand, spec=spec) for cand in ss.candidate_values()]
-        label = f"body:{shape(expect['body']['schema'])}"
-        if any(v is False for v in verdicts):
+        # several media types: negatable when the schema of one of them is, un-negatable when all of them accept everything
+        per_media = [[verdict(doc, sch, cand, spec=spec) for cand in ss.candidate_values()] for _, sch in body_schemas(expect["body"])]
+        label = "body:" + "|".join(shape(sch) for _, sch in body_schemas(expect["body"]))
+        if any(v is False for verdicts in per_media for v in verdicts):
             negatable.append(label)
-        elif all(v is True for v in verdicts):
+        elif all(v is True for verdicts in per_media for v in verdicts):
             unnegatable.append(label)
         else:
             open_.append(label)
@@ -457,9 +525,13 @@ def _make_body(strategy: Any) -> Any:
 def check_item(item: dict, tier: str) -> Result:
     from schemathesis.generation import GenerationConfig, GenerationMode
 
+    if item.get("entry") == "engine":
+        return check_engine_item(item, tier)
     res = Result()
     acc = _Item(res)
     b = BOUNDS[tier]
+    entry = item.get("entry", "call+stored")
+    res.count(f"entry_{entry}")
     doc, expect = build(item)
     spec = item["spec"]
     op_class, facts = classify_operation(doc, expect, spec)
@@ -472,9 +544,18 @@ def check_item(item: dict, tier: str) -> Result:
         ctx = {"item": item, "doc": doc, "expect": expect, "spec": spec, "modes": mode_key, "base": base}
         try:
             config = GenerationConfig(modes=modes)
-            schema = common.load(doc).configure(generation=config)
-            operation = schema[expect["path"]][expect["method"].upper()]
-            strategy = operation.as_strategy(generation_mode=GenerationMode.NEGATIVE, generation_config=config)
+            schema = common.load(doc)
+            if entry in ("call+stored", "stored"):
+                schema = schema.configure(generation=config)
+            # "stored": the modes are known from the schema only; the other entries pass them with the call
+            per_call = {} if entry == "stored" else {"generation_config": config}
+            if entry == "schema":
+                strategy = schema.as_strategy(generation_mode=GenerationMode.NEGATIVE, **per_call)
+            elif entry == "map":
+                strategy = schema[expect["path"]].as_strategy(generation_mode=GenerationMode.NEGATIVE, **per_call)
+            else:
+                operation = schema[expect["path"]][expect["method"].upper()]
+                strategy = operation.as_strategy(generation_mode=GenerationMode.NEGATIVE, **per_call)
         except Exception as exc:  # noqa: BLE001
             res.evaluations += 1
             res.outcomes.add("construction_error")
@@ -532,6 +613,8 @@ def check_item(item: dict, tier: str) -> Result:
         op_sig = {"modes": mode_key, "operation_class": op_class, "outcome": outcome,
                   "unnegatable_inputs": facts["unnegatable_inputs"], "negatable_inputs": facts["negatable_inputs"],
                   "unnegatable_locations": sorted({x.split(":")[0] for x in facts["unnegatable_inputs"]})}
+        if entry != "call+stored":
+            op_sig["entry"] = entry
         op_detail = {"inputs": _inputs(expect), "spec": spec, "facts": facts, "tally": dict(tally),
                      "liveness_exhausted": None if live is None else live.exhausted,
                      "liveness_executions": None if live is None else live.executions}
@@ -571,6 +654,90 @@ def check_item(item: dict, tier: str) -> Result:
     return res
 
 
+def check_engine_item(item: dict, tier: str) -> Result:
+    """One deterministic execution of the real engine (fuzzing phase only, derandomised, one worker, in-process HTTP).
+
+    Judged: the scenario of an operation without anything violable is reported as skipped in negative-only mode (not as an
+    error / failure, and nothing is sent); an operation with a violable input is neither skipped nor an error and gets at
+    least one case in negative-only mode; every recorded case labelled negative goes through the per-case oracle."""
+    from mc import engine
+    from schemathesis.generation import GenerationMode
+
+    res = Result()
+    acc = _Item(res)
+    doc, expect = build(item)
+    spec = item["spec"]
+    op_class, facts = classify_operation(doc, expect, spec)
+    res.count(f"operations_{op_class}", len(item["modes"]))
+    res.count("entry_engine")
+    base = {"family": item["family"], "shape": item["shape"]}
+    for mode_key in item["modes"]:
+        modes = [GenerationMode.NEGATIVE] if mode_key == N else [GenerationMode.POSITIVE, GenerationMode.NEGATIVE]
+        common.reset_schemathesis_caches()
+        schema = engine.load_schema(doc)
+        config = engine.make_config(phases=["fuzzing"], modes=modes, max_examples=ENGINE_MAX_EXAMPLES, seed=1, workers=1)
+        run = engine.run_engine(schema, config)
+        res.evaluations += 1
+        res.count("engine_runs")
+        finished = run.of_type("ScenarioFinished")
+        errors = run.of_type("NonFatalError")
+        statuses = sorted(getattr(e.status, "value", str(e.status)) for e in finished)
+        cases = [node.value for e in finished for node in e.recorder.cases.values()]
+        negative_cases = [c for c in cases if c.meta is not None and c.meta.generation.mode == GenerationMode.NEGATIVE]
+        res.states += len(run.events)
+        res.transitions += len(run.exchanges)
+        if run.error is not None or errors or "error" in statuses or len(finished) != 1:
+            outcome = "error"
+        elif statuses == ["skip"]:
+            outcome = "skipped"
+        elif "failure" in statuses:
+            outcome = "failure"
+        elif cases:
+            outcome = "case"
+        else:
+            outcome = "no_case"
+        res.outcomes.add(f"engine:{op_class}:{mode_key}:{outcome}")
+        ctx = {"item": item, "doc": doc, "expect": expect, "spec": spec, "modes": mode_key, "base": base}
+        for case in (cases if mode_key == N else negative_cases):
+            res.traces += 1
+            res.count("engine_cases_judged")
+            judge(res, acc, ctx, case, [], "engine")
+        if mode_key == PN:
+            res.count("engine_positive_cases_in_mixed_modes", len(cases) - len(negative_cases))
+        op_sig = {"modes": mode_key, "operation_class": op_class, "outcome": outcome, "entry": "engine",
+                  "unnegatable_inputs": facts["unnegatable_inputs"], "negatable_inputs": facts["negatable_inputs"],
+                  "unnegatable_locations": sorted({x.split(":")[0] for x in facts["unnegatable_inputs"]})}
+        op_detail = {"inputs": _inputs(expect), "spec": spec, "facts": facts, "statuses": statuses, "cases": len(cases),
+                     "exchanges": len(run.exchanges),
+                     "errors": [repr(getattr(e, "value", e))[:200] for e in errors] + ([repr(run.error)[:200]] if run.error else [])}
+        if op_class == "must_skip":
+            if outcome == "case":
+                res.count("cases_for_unnegatable_operation")  # each negative one was judged by the per-case oracle above
+            elif mode_key == N:
+                if outcome == "skipped" and not run.exchanges:
+                    res.count("engine_unnegatable_operation_skipped")
+                else:
+                    acc.violation({**op_sig, "kind": "unnegatable_operation_not_skipped"}, op_detail)
+            elif outcome in ("error", "failure"):
+                # mixed modes: the operation is still tested with positive data; "failed" is what the property excludes
+                acc.violation({**op_sig, "kind": "unnegatable_operation_failed_in_mixed_modes"}, op_detail)
+            else:
+                res.count("engine_unnegatable_operation_not_failed_mixed_modes")
+        elif op_class == "must_produce":
+            if outcome == "skipped":
+                acc.violation({**op_sig, "kind": "negatable_operation_skipped"}, op_detail)
+            elif outcome in ("error", "no_case") or (mode_key == N and not negative_cases):
+                acc.violation({**op_sig, "kind": "no_negative_case_for_negatable_operation"}, op_detail)
+            else:
+                res.count("engine_negatable_operation_tested")
+        else:
+            res.count("liveness_not_judged")
+    return res
+
+
+ENGINE_MAX_EXAMPLES = 3
+
+
 def _inputs(expect: dict) -> dict:
     return {"params": expect["params"], "body": expect["body"]}
 
@@ -599,7 +766,8 @@ def judge(res: Result, acc: _Item, ctx: dict, case: Any, choices: list[int], whi
             declared = expect["body"] is not None
             present = case.body is not NOT_SET
             if present and declared:
-                v = verdict(doc, expect["body"]["schema"], case.body, spec=spec)
+                known, body_schema = body_schema_for(expect["body"], case.media_type)
+                v = verdict(doc, body_schema, case.body, spec=spec) if known else None
                 lv = {"raw": v, "wire": v, "violating_parts": ["value"] if v is False else [], "raw_violating_parts": ["value"] if v is False else [],
                       "via": ["conforms_as_generated"] if v is True else []}
             elif present:
@@ -682,4 +850,14 @@ def vacuity(total: Result, tier: str) -> list[str]:
         out.append("operation classes not both populated")
     if len(total.outcomes) < 4:
         out.append("too few distinct outcomes")
+    # review round 2 dimensions
+    for entry in ("stored", "call", "schema", "map", "engine"):
+        if c.get(f"entry_{entry}", 0) == 0:
+            out.append(f"entry point '{entry}' was never exercised")
+    if c.get("engine_unnegatable_operation_skipped", 0) == 0:
+        out.append("no engine run reported an un-negatable operation as skipped")
+    if c.get("engine_cases_judged", 0) == 0 or c.get("engine_negatable_operation_tested", 0) == 0:
+        out.append("no case recorded by an engine run was judged")
+    if not any(o.startswith("operation:must_skip:N:skipped") for o in total.outcomes):
+        out.append("no un-negatable operation outcome 'skipped' among the strategy entry points")
     return out
